@@ -31,6 +31,9 @@ Definition wrap64 (x : N) : N := x mod two64.
 Definition sub64 (a b : N) : N := (a + two64 - b) mod two64.     (* a - b on size_t, a, b < 2^64 *)
 Definition ssize_max : N := 9223372036854775807.
 
+(* List.rev in linear time (rev_alt: rev l = rev_append l []) *)
+Definition frev {A} (l : list A) : list A := rev_append l [].
+
 Fixpoint list_eqb (a b : list N) : bool :=
   match a, b with
   | [], [] => true
@@ -123,7 +126,7 @@ Definition rdr_wait (r : rdr) (len : N) (net : netst) : res wres :=
     else
       match net_read (n_segs net) cap need [] with
       | NrData chunks segs' =>
-        let bytes := concat (rev chunks) in
+        let bytes := concat (frev chunks) in
         Ok (WStatus RsOk
               (mkR (r_buflen r2) (r_bufpos r2) (r_datalen r2 + lenN bytes) (r_win r2 ++ bytes))
               (mkNet segs' (n_end net)))
@@ -183,7 +186,7 @@ Fixpoint drop_while_in (set l : list N) : list N :=
   | c :: r => if memb c set then drop_while_in set r else l
   | [] => []
   end.
-Definition rtrim (l : list N) : list N := rev (drop_while_in ows_trailing (rev l)).
+Definition rtrim (l : list N) : list N := frev (drop_while_in ows_trailing (frev l)).
 
 (* strcspn(s, seps) split *)
 Fixpoint break_at (seps l : list N) : list N * list N :=
@@ -206,7 +209,7 @@ Definition hdrs := list (list N * list N).
 Fixpoint parse_headers (n : nat) (rest : list N) (bufpos : N) (acc : hdrs)
   : res (option (hdrs * N)) :=
   match n with
-  | O => Ok (Some (rev acc, bufpos))
+  | O => Ok (Some (frev acc, bufpos))
   | S n' =>
     match cut_line rest with
     | None => AssertFail                                   (* sgetline: its assert that an EOL was found *)
@@ -274,7 +277,7 @@ Inductive sres :=
 
 Definition do_fail : sres := SFinish [CbNull].
 Definition do_callback (h : hst) : sres :=
-  SFinish [CbResp (h_status h) (h_headers h) (h_alloc h =? 0) (h_bodylen h) (concat (rev (h_body h)))].
+  SFinish [CbResp (h_status h) (h_headers h) (h_alloc h =? 0) (h_bodylen h) (concat (frev (h_body h)))].
 Definition do_toobig (h : hst) : sres :=
   SFinish [CbResp (h_status h) (h_headers h) true size_max []].
 
